@@ -352,6 +352,12 @@ fn gen_case(rng: &mut Rng) -> SCase {
     if mode == 2 {
         enables = all.clone();
     }
+    if mode == 3 {
+        // everything disabled except a few codes, which are listed in `enables`
+        let keep: Vec<String> = subset(rng, &trig, 1, 4);
+        disable = all.iter().filter(|c| !keep.contains(c)).cloned().collect();
+        enables = keep;
+    }
     let mut severity = BTreeMap::new();
     for c in subset(rng, &trig, 1, 3) {
         severity.insert(c, rng.pick(SEVS).to_string());
@@ -412,8 +418,9 @@ fn search_one(c: &SCase, out: &mut Vec<Value>) -> (usize, usize) {
     if (c.placement == "lib" || c.placement == "std") && !ds.is_empty() {
         report(format!("{}-file-reports", c.placement), format!("a {} file reported {} diagnostics, first {}", c.placement, ds.len(), code_of(&ds[0])));
     }
-    // "Meta files ... report nothing"
-    if c.meta && !ds.is_empty() {
+    // "Meta files ... report nothing".  A file outside every workspace root has no module entry, so the module index
+    // cannot mark it as a meta file (and the server ignores such files): the sentence is checked for files of a workspace.
+    if c.meta && c.placement != "none" && !ds.is_empty() {
         let d0 = &ds[0];
         let code = code_of(d0);
         let sig = if fe.contains(code.as_str()) { "meta-file-reports:file-enabled-code" } else { "meta-file-reports:other-code" };
